@@ -1167,4 +1167,91 @@ theorem secGetData_sameHdr (c : Cls) (tr : List Trans) (ls : LoadSt) (b : SecBuf
     · exact SameHdr.trans (by constructor <;> rfl) (secLoadData_sameHdr c tr ls b)
   · exact SameHdr.refl b
 
+/-! ### `load_data` without translation on an input shorter than 2^63: a pure function of the
+    section and the input bytes; the stream's failure state is left as it was -/
+
+/-- the section side of `load_data` when every in-range read succeeds -/
+def loadDataPure (img : Bytes) (b : SecBuf) : SecBuf × Bool :=
+  if sec64_load_data_off_gt b.offset b.streamSize then (b, false) else
+  if sec64_load_data_size_gt b.size b.streamSize b.offset then (b, false) else
+  if b.data.isNone && !isNullOrNobitsTy b.stype then
+    if sec64_load_data_sizet b.size then (b, false) else
+    ({ b with data := some (slice img b.offset.toNat b.size.toNat ++ [0]), dataSize := b.size, isLoaded := true },
+     true)
+  else ({ b with isLoaded := b.data.isSome || isNullOrNobitsTy b.stype },
+        b.data.isSome || isNullOrNobitsTy b.stype)
+
+def getDataPure (img : Bytes) (b : SecBuf) : SecBuf :=
+  if (!b.isLoaded && b.canLoad) = true then
+    (if (loadDataPure img b).2 = true then (loadDataPure img b).1
+     else { (loadDataPure img b).1 with canLoad := false })
+  else b
+
+theorem toInt_nonneg_of_lt {x : BitVec 64} (h : x.toNat < 9223372036854775808) : 0 ≤ x.toInt := by
+  rw [BitVec.toInt_eq_toNat_cond]
+  simp only [Nat.reducePow]
+  split <;> omega
+
+theorem secLoadData_pure (c : Cls) (ls : LoadSt) (b : SecBuf) (img : Bytes) (hd : ls.st.data = img)
+    (hb : LoadedSec [] b img) (hlen : img.length < 9223372036854775808) :
+    (secLoadData c [] ls b).2 = loadDataPure img b ∧
+    (secLoadData c [] ls b).1.st.fail = ls.st.fail := by
+  rw [secLoadData_eq]
+  unfold loadDataPure
+  simp only [dataOff_nil]
+  by_cases h1 : sec64_load_data_off_gt b.offset b.streamSize = true
+  · simp only [h1, if_true]; exact ⟨trivial, trivial⟩
+  rw [if_neg h1, if_neg h1]
+  by_cases h2 : sec64_load_data_size_gt b.size b.streamSize b.offset = true
+  · simp only [h2, if_true]; exact ⟨trivial, trivial⟩
+  rw [if_neg h2, if_neg h2]
+  by_cases h3 : (b.data.isNone && !isNullOrNobitsTy b.stype) = true
+  · rw [if_pos h3, if_pos h3]
+    by_cases h4 : sec64_load_data_sizet b.size = true
+    · simp only [h4, if_true]; exact ⟨trivial, trivial⟩
+    rw [if_neg h4, if_neg h4]
+    have hle := g_size_gt_false (by simpa using h2) (g_off_gt_false (by simpa using h1))
+    have hss : b.streamSize = BitVec.ofNat 64 img.length := by
+      rcases hb.ss with ⟨-, hss⟩ | ⟨-, hn⟩
+      · exact hss
+      · have := (hn rfl).1
+        simp [this] at h3
+    rw [hss, toNat_ofNat_len (by omega)] at hle
+    by_cases h5 : (b.size != 0) = true
+    · rw [if_pos h5]
+      obtain ⟨e1, e2, e3, -⟩ := isolatedRead_inrange ls.st b.offset b.size
+        (toInt_nonneg_of_lt (by omega)) (toInt_nonneg_of_lt (by omega)) (by rw [hd]; exact hle)
+      rw [if_neg (by simp [e2]), e1, hd]
+      exact ⟨rfl, e3⟩
+    · rw [if_neg h5]
+      have hsz : b.size = 0 := by simpa using h5
+      refine ⟨?_, rfl⟩
+      simp [hsz, slice, alloc]
+  · rw [if_neg h3, if_neg h3]
+    exact ⟨rfl, rfl⟩
+
+theorem secGetData_pure (c : Cls) (ls : LoadSt) (b : SecBuf) (img : Bytes) (hd : ls.st.data = img)
+    (hb : LoadedSec [] b img) (hlen : img.length < 9223372036854775808) :
+    (secGetData c [] ls b).2 = getDataPure img b ∧ (secGetData c [] ls b).1.st.fail = ls.st.fail := by
+  obtain ⟨h1, h2⟩ := secLoadData_pure c ls b img hd hb hlen
+  rw [secGetData_eq]
+  unfold getDataPure
+  split
+  · refine ⟨?_, h2⟩
+    rw [← h1]
+  · exact ⟨rfl, rfl⟩
+
+/-- the section after a complete header read satisfies the invariant -/
+theorem secHdrOnly_inv (c : Cls) (enc : Enc) (tr : List Trans) (st : IStream) (hdrOff : Int)
+    (isLazy : Bool) (idx : Nat) (img : Bytes) (hd : st.data = img)
+    (hg : (hdrRead tr st hdrOff (shdrSize c)).1.gcount ≠ 0) :
+    LoadedSec tr (secHdrOnly c enc tr (hdrRead tr st hdrOff (shdrSize c)).1
+        (hdrRead tr st hdrOff (shdrSize c)).2 (streamSizeOf tr st).2 isLazy idx) img := by
+  refine ⟨fun d hd => (by simp [secHdrOnly, secB0] at hd), fun d hd => (by simp [secHdrOnly, secB0] at hd),
+    fun d hd => (by simp [secHdrOnly, secB0] at hd), ?_⟩
+  have := secLoad_ss tr st hdrOff (shdrSize c) img hd
+    (secHdrOnly c enc tr (hdrRead tr st hdrOff (shdrSize c)).1
+      (hdrRead tr st hdrOff (shdrSize c)).2 (streamSizeOf tr st).2 isLazy idx).stype (Or.inl hg)
+  simpa [secHdrOnly, secB0] using this
+
 end ElfioVerif
